@@ -91,6 +91,13 @@ namespace ip {
 			return;
 		}
 
+		if (m_bound_to != ip::udp::endpoint())
+		{
+			// already bound (as bind(2) on a bound socket)
+			ec = error::invalid_argument;
+			return;
+		}
+
 		ip::udp::endpoint addr = m_io_service.bind_udp_socket(this, ep, ec);
 		if (ec) return;
 		m_bound_to = addr;
